@@ -659,6 +659,8 @@ def check_last(ctx, kn, kind, renders, m, replay, soft=False):
         for sc, (c, f, ru, t, _) in scopes.items():
             r = got.get(sc)
             ok = r is not None and r[2] == c and r[5] == f and r[4] == t and (not r[1] or r[3] == ru)
+            if ok and kind == 2 and len(r) > 7 and r[7]:
+                ok = r[7][0] == t and r[7][1] == c + f          # the IPython bar itself: max = total, value = finished
             if not ok:
                 ctx.fail("last-output:%s" % kn, "%s observer: last rendering shows %r for a scope whose final counts are completed=%d failed=%d running=%d total=%d"
                          % (kn, r, c, f, ru, t), replay)
@@ -807,7 +809,79 @@ def many_failures(ctx, clock, classes):
     clock.auto = None
 
 
+def unusual_exceptions(ctx, clock, classes):
+    """failures whose exception objects are unhashable (a dataclass with eq), falsy, or have a raising __str__ are rendered
+    like any other: the update thread survives and the last rendering shows the final counts"""
+    import dataclasses
+    KN = ["console", "html", "ipython"]
+
+    @dataclasses.dataclass(eq=True)
+    class RowError(Exception):
+        rows: list
+
+    class Falsy(Exception):
+        def __bool__(self):
+            return False
+
+    class BadStr(Exception):
+        def __str__(self):
+            raise RuntimeError("no message")
+
+    def raised(e):
+        try:
+            raise e
+        except Exception as x:
+            return x
+    for kind in range(3):
+        for mk in (lambda: RowError([1, 2]), lambda: Falsy("f"), lambda: BadStr("b")):
+            clock.auto, clock.log = F(0), []
+            sink, stdout = [], io.StringIO()
+            obs = make_obs(kind, F(10 ** 9), classes, sink, delay=0.0005)
+            died = []
+            hook, threading.excepthook = threading.excepthook, (lambda a: died.append(a))
+            sc = ("odd",)
+            exc = raised(mk())
+            try:
+                with contextlib.redirect_stdout(stdout):
+                    obs.__enter__()
+                    try:
+                        obs.increment_total(section="run", scope=sc, amount=2)
+                        obs.increment_running(section="run", scope=sc)
+                        obs.increment_failed(section="run", scope=sc, exception=exc)
+                        realtime.sleep(0.01)
+                        obs.increment_running(section="run", scope=sc)
+                        obs.increment_failed(section="run", scope=sc, exception=raised(mk()))
+                    finally:
+                        obs.__exit__(None, None, None)
+            finally:
+                threading.excepthook = hook
+            ctx.case(("unusual-exception", kind, type(exc).__name__))
+            names = {(SEC["run"], scope_str(sc)): 0}
+            try:
+                if kind == 0:
+                    chunks = re.split(r"(?m)^(?=uberjob, elapsed )", stdout.getvalue())
+                    renders = [parse_console(c, names) for c in chunks if c.startswith("uberjob, elapsed")]
+                elif kind == 1:
+                    renders = [parse_html(b, names) for b in sink]
+                else:
+                    renders = [parse_ipy(obs, names)] if obs._widget_cache else []
+                rows = []
+                for rnd in renders:
+                    rr_ = [r for s_, rr in rnd for r in rr if r[0] == 0]
+                    if rr_ or kind != 0:
+                        rows = rr_
+                shown = [(r[2], r[5], r[4]) for r in rows]
+            except Exception as e:      # noqa
+                shown = "unparsable: %s: %s" % (type(e).__name__, e)
+            if died or shown != [(0, 2, 2)]:
+                ctx.fail("unusual-exception:%s" % KN[kind], "%s observer, two failures carrying a %s object: %s; last rendering shows (completed, failed, total) = %r"
+                         % (KN[kind], type(exc).__name__, "the update thread died with %s" % died[0].exc_type.__name__ if died else "thread alive", shown),
+                         {"kind": KN[kind], "exception": type(exc).__name__})
+    clock.auto = None
+
+
 def threaded(ctx, sp, pool, clock, classes, pool_index):
+    unusual_exceptions(ctx, clock, classes)
     lookalikes(ctx, clock, classes)
     many_failures(ctx, clock, classes)
     slow_sink(ctx, sp, pool, clock, classes, pool_index)
